@@ -48,13 +48,13 @@ def norm_state(S):
     return T
 
 
-def build_object(rng, kind, big=False):
+def build_object(rng, kind, big=False, ctx=None):
     cfg = history.Cfg(rng, kind, uni=rng.choice(JSON_UNIS), big=big)
     if not big:
         cfg.n_ops = rng.randint(4, 30)
     cfg.invalid_rate = 0.1  # refused calls are part of the build: they must leave no trace in what is measured
     cfg.avoid = {"copy"} | ({"clear"} if rng.random() < 0.9 else set())
-    live, trace = history.run_history(NullCtx(), rng, cfg, battery_every=0)
+    live, trace = history.run_history(history.BuildCtx(ctx, "C06") if ctx is not None else NullCtx(), rng, cfg, battery_every=0)
     h = live[0][0]
     r = rng.random()
     if r < 0.4:
@@ -152,7 +152,7 @@ def roundtrip_case(ctx, rng, idx, tmp):
         big = idx in (0, 1, 4, 5) or (ctx.tier == "thorough" and idx % 800 == 8)
         if big:
             ctx.event("big-object")
-        h, cfg, trace = build_object(rng, kind, big=big)
+        h, cfg, trace = build_object(rng, kind, big=big, ctx=ctx)
     except Exception as e:
         ctx.note("object-build-failed:" + type(e).__name__)
         return
